@@ -11,8 +11,6 @@ REPAIR_EXT = {'os.remove', 'os.unlink', 'os.rmdir', 'os.removedirs', 'shutil.rmt
 def _repairs(trace, fn):
     out = []
     for e in trace:
-        if e.fn is not fn:
-            continue
         if e.kind == 'SQL' and e.d['stmt'] is not None and e.d['stmt'].kind in ('vacuum', 'update', 'delete', 'insert',
                                                                                'unknown'):
             out.append(e)
@@ -50,7 +48,7 @@ def h1(ctx):
     sites = {}
     for p in ctx.paths(f, 'default'):
         for e in _repairs(p.trace, f):
-            k = (e.line, e.node.col_offset)
+            k = (e.line, e.node.col_offset, e.sites, _what(e))
             info = sites.setdefault(k, {'e': e, 'ok': True, 'wit': None})
             if not _fix_true_before(p.trace, e.seq):
                 info['ok'] = False
@@ -76,7 +74,7 @@ def h2(ctx):
         for e in _repairs(tr, f):
             if e.kind == 'SQL' and e.d['stmt'].kind == 'vacuum':
                 continue
-            k = (e.line, e.node.col_offset)
+            k = (e.line, e.node.col_offset, e.sites, _what(e))
             info = sites.setdefault(k, {'e': e, 'ok': True, 'wit': None})
             # walk back: only the `fix` test (and decided tests) may sit between the warning and the repair
             good = False
@@ -111,7 +109,7 @@ def h2(ctx):
     for p in ctx.paths(f, 'default'):
         tr = p.trace
         for i, x in enumerate(tr):
-            if x.kind == 'EXT' and x.d['name'] == 'warnings.warn' and x.fn is f:
+            if x.kind == 'EXT' and x.d['name'] == 'warnings.warn':
                 # find the innermost enclosing If in the AST that tests fix
                 pass
     for n in ast.walk(f.node):
@@ -173,8 +171,6 @@ def h4(ctx):
     in_txn = True
     for p in ctx.paths(f, 'default')[:400]:
         for e in p.trace:
-            if e.fn is not f:
-                continue
             if e.kind == 'SQL' and e.d['stmt'] is not None:
                 st = e.d['stmt']
                 if st.kind == 'pragma' and st.pragma == 'integrity_check':
@@ -201,7 +197,7 @@ def h4(ctx):
         if p.kind not in ('return', 'next'):
             continue
         npaths += 1
-        walks = [e for e in p.trace if e.kind == 'EXT' and e.d['name'] == 'os.walk' and e.fn is f]
+        walks = [e for e in p.trace if e.kind == 'EXT' and e.d['name'] == 'os.walk']
         if len(walks) < 2:
             always = False
             wit = wit or fmt_trace(p.trace)
@@ -212,7 +208,7 @@ def h4(ctx):
                 wit = wit or fmt_trace(p.trace)
         # known files and walked files are both absolute paths built by os.path.join(<root>, <relative name>)
         for e in p.trace:
-            if e.kind == 'MCALL' and e.d['name'] == 'add' and e.fn is f and e.d['args']:
+            if e.kind == 'MCALL' and e.d['name'] == 'add' and e.d['args']:
                 a = e.d['args'][0]
                 good = a.k == 'ext' and a.a[0] == 'os.path.join'
                 if good:
